@@ -33,7 +33,7 @@ from http.client import HTTPMessage
 from lib.framework import Check, enc, time_limit
 from harness import c20_spec as S
 
-KF_SHORT = 'C20-xml-short'      # the only finding still open; the others are fixed (known/C20.json)
+KF_SHORT = 'C20-info-short'     # the only finding still open (getEncodingInfo level); the others are fixed (known/C20.json)
 
 _silent = logging.getLogger('c20-silent')
 _silent.addHandler(logging.NullHandler())
@@ -902,7 +902,7 @@ class C20(Check):
                 ctx.violate('XML sniffing looks at the first 2048 characters only', w, {'whole': list(res), 'cut': list(cut)})
         if w.get('oracle') is False:
             return
-        known = KF_SHORT if S.region_short(d) else None
+        known = None        # the sniffer part of the former finding C20-xml-short is fixed (759e903): no region left here
         clause_val = 'XML sniffing returns the BOM\'s encoding if there is a BOM, else the declared encoding, else UTF-8'
         if res[0] == 'ERR':
             ctx.violate(clause_val + ' (it raised)', w, {'impl': list(res)}, known=known)
